@@ -274,6 +274,29 @@ def wrapOnce (level : String) (cfg : WrapCfg) (ecmp pcmp fmt : String) (root : D
     | [] => some (Node.node .ROOT [])
   | _ => none
 
+/-- the formatter selected by the request, if any -/
+def fmtOf (fmt : String) : Option (Str → Str → Str) :=
+  if fmt == "i" then some (fun _ v => v) else if fmt == "u" then some fmtCommaLines
+  else if fmt == "s" then some fmtSortItems else if fmt == "c" then some Ctl.formatField else none
+
+/-- trigger of the open finding F-C07-10 (`Ctl.hashLine`): a formatter is active, it is called on some
+    entry the request reformats, and a line after the first of its output starts with `#` -/
+def wrapHashLine (level fmt : String) (root : DNode) : Bool :=
+  match fmtOf fmt with
+  | none => false
+  | some f =>
+    match level with
+    | "d" => (paragraphs root).any (Ctl.paraHashLine f)
+    | "p" => match paragraphs root with
+      | p :: _ => Ctl.paraHashLine f p
+      | [] => false
+    | "e" => match paragraphs root with
+      | p :: _ => match entries p with
+        | e :: _ => Ctl.entryHashLine f e
+        | [] => false
+      | [] => false
+    | _ => false
+
 def showWrapped (r : Option DNode) : String :=
   match r with
   | none => "PANIC"
@@ -286,11 +309,12 @@ def handle (op : String) (args : List String) : Option String :=
     let (c, ecmp, pcmp, fmt) ← decCfg cfg
     let root := (parse s).tree
     if fmt == "c" && Ctl.hasBigNumber root then pure "BIGNUM\t!F-C07-8" else
-    pure (match wrapOnce level c ecmp pcmp fmt root with
+    let obs := match wrapOnce level c ecmp pcmp fmt root with
       | none => "PANIC"
       | some t1 => match wrapOnce level c ecmp pcmp fmt t1 with
         | none => "PANIC"
-        | some t2 => s!"{showWrapped (some t1)} 2:{encStr t2.text}")
+        | some t2 => s!"{showWrapped (some t1)} 2:{encStr t2.text}"
+    pure (if wrapHashLine level fmt root then obs ++ "\t!F-C07-10" else obs)
   | "deb.hist", [start, ops] => do
     let d ← startDoc start
     let (outs, dEnd) ← histRun d (if ops.isEmpty then [] else ops.splitOn ",")
